@@ -57,6 +57,10 @@ def gen_request(r, pre, owners, maxsz, limit):
     for n in names:
         d = pre.get(n, b"")
         tw[n] = (M.gen_testv(r, d, p_true), M.gen_datav(r, len(d), limit), M.gen_newlen(r, len(d)))
+        if n not in pre and r.random() < 0.12:
+            # stale belief about a share the server does not hold, together with a delete / write of it:
+            # evaluated against the empty share, must fail and protect the other shares of the request
+            tw[n] = ([(r.choice([0, 0, 3]), r.choice([1, 4, 100]), b"eq", M.rb(r, r.choice([1, 4])))], tw[n][1], r.choice([0, 0, None]))
     kind = "plain"
     if pre and r.random() < 0.14:
         # delete EVERY existing share (the bucket directory goes away with the last one) and create
@@ -74,6 +78,37 @@ def gen_request(r, pre, owners, maxsz, limit):
                 items.insert(r.randint(0, len(items)), (r.choice([n for n in free if n != new]), ([], [(r.randint(0, 9), M.rb(r, 2))], None)))
             tw = dict(items)
             kind = "delete-all-and-create"
+    long_shares = [n for n in sorted(pre) if len(pre[n]) >= 3]
+    if kind == "plain" and long_shares and r.random() < 0.16:
+        # a test vector whose length and specimen length differ, on a share whose data goes on behind
+        # the specimen (must FAIL: the specimen is compared with all the bytes read) or ends before
+        # offset+length (the read is clipped: the clipped bytes pass, anything else fails); the same
+        # request creates / deletes / overwrites other shares, which must then stay as they are
+        n = r.choice(long_shares)
+        d = pre[n]
+        off = r.choice([0, 0, 1, len(d) // 2, max(0, len(d) - 3)])
+        rest = d[off:]
+        shape = r.choice(["prefix", "prefix", "prefix-one", "clipped-ok", "clipped-prefix", "exact-ok", "longer-specimen"])
+        if shape == "prefix" and len(rest) >= 2:
+            tvn = [(off, r.choice([len(rest), 100, 5000]), b"eq", rest[:r.randint(1, len(rest) - 1)])]
+        elif shape == "prefix-one" and len(rest) >= 2:
+            tvn = [(off, 2, b"eq", rest[:1])]
+        elif shape == "clipped-ok":
+            tvn = [(off, len(rest) + r.choice([1, 50]), b"eq", rest)]
+        elif shape == "clipped-prefix" and len(rest) >= 2:
+            tvn = [(off, len(rest) + 7, b"eq", rest[:-1])]
+        elif shape == "longer-specimen":
+            tvn = [(off, max(1, len(rest) - 1), b"eq", rest + b"\x00")]
+        else:
+            tvn = [(off, len(rest), b"eq", rest)]
+        others = [m for m in range(NSHARES) if m != n]
+        items = [(n, (tvn, M.gen_datav(r, len(d), limit) or [(0, M.rb(r, 2))], r.choice([None, None, 0, 2])))]
+        for m in r.sample(others, r.choice([1, 2])):
+            dm = pre.get(m, b"")
+            items.append((m, ([], M.gen_datav(r, len(dm), limit) or [(0, M.rb(r, 2))], r.choice([None, None, 0]) if m in pre else None)))
+        r.shuffle(items)
+        tw = dict(items)
+        kind = "testv-length-vs-specimen:" + shape
     if r.random() < 0.10 and names and kind == "plain":        # an oversized vector, not necessarily in the first share / first position
         n = r.choice(names)
         tv, dv, nl = tw[n]
@@ -86,7 +121,7 @@ def gen_request(r, pre, owners, maxsz, limit):
         tw[n] = (tv, dv, nl)
         kind = "oversized"
     we = WES[0]
-    if r.random() < 0.10 and kind != "delete-all-and-create":
+    if r.random() < 0.10 and kind == "plain":
         we = WES[1]
         kind = "wrong-enabler"
     secrets = (we, M.secret(r.randint(0, 3)), M.secret(10 + r.randint(0, 3)))
